@@ -214,9 +214,16 @@ Proof. now destruct v. Qed.
 
 Lemma oc_apply_id now ru ex old : r_id ex = r_id old -> r_id (oc_apply now ru ex old) = r_id old.
 Proof.
-  intros H. destruct ru as [|cols|]; cbn [oc_apply]; [reflexivity| |].
+  intros H. induction ru as [|cols| |k r IH|k r IH]; cbn [oc_apply]; [reflexivity| | | |exact IH].
   - apply r_id_of_get. rewrite copy_cols_get. destruct (mem_col CId cols); cbn; congruence.
   - destruct old, ex as [i' n' a' e' ct' ut' d']; destruct d'; reflexivity.
+  - destruct (r_age old <? k); [exact IH|reflexivity].
+Qed.
+
+Lemma oc_apply_idle now ru ex old : rule_fires ru old = false -> oc_apply now ru ex old = old.
+Proof.
+  induction ru as [|cols| |k r IH|k r IH]; cbn [oc_apply rule_fires]; intros H; try discriminate; auto.
+  destruct (r_age old <? k); [apply IH, H|reflexivity].
 Qed.
 
 Lemma strip_oc_all now ex old : r_id ex = r_id old -> strip_ts (oc_apply now RAll ex old) = strip_ts ex.
@@ -302,21 +309,14 @@ Proof.
   destruct (lookup_some _ _ _ Hl) as [Hin Hid].
   assert (Hpres : forall x, (r_id x =? r_id v) = true -> r_id (oc_apply now ru ex x) = r_id x).
   { intros x Hx. apply Z.eqb_eq in Hx. apply oc_apply_id. congruence. }
-  assert (G : forall ru', res_err (mk_result ex 1 false 1 (upd_where (fun x => r_id x =? r_id v) (oc_apply now ru' ex) t)) = false) by reflexivity.
-  destruct ru as [|cols|]; cbn [res_err res_ret res_tbl oc_apply].
-  - repeat split; auto.
+  destruct (rule_fires ru old) eqn:F; cbn [res_err res_ret res_tbl].
   - repeat split; auto.
     + apply wf_upd'; [exact Hpres|exact Hwf].
     + apply without_upd_where. intros x Hx. split; [now apply Z.eqb_eq|].
       rewrite (Hpres x Hx). now apply Z.eqb_eq.
     + rewrite lookup_upd_where by exact Hpres. rewrite Hl. cbn. now rewrite Hid, Z.eqb_refl.
     + apply length_upd_where.
-  - repeat split; auto.
-    + apply wf_upd'; [exact Hpres|exact Hwf].
-    + apply without_upd_where. intros x Hx. split; [now apply Z.eqb_eq|].
-      rewrite (Hpres x Hx). now apply Z.eqb_eq.
-    + rewrite lookup_upd_where by exact Hpres. rewrite Hl. cbn. now rewrite Hid, Z.eqb_refl.
-    + apply length_upd_where.
+  - rewrite (oc_apply_idle now ru ex old F). repeat split; auto.
 Qed.
 End Create.
 
@@ -417,7 +417,7 @@ Proof.
 Qed.
 
 (* ---- the three OnConflict rules, column by column --------------------------------------------- *)
-Definition rule_row (now : Z) (ru : rule) (ex old row : rec) : Prop :=
+Fixpoint rule_row (now : Z) (ru : rule) (ex old row : rec) : Prop :=
   match ru with
   | RNothing => row = old
   | RUpdates cols => forall c, get_col c row = if mem_col c cols then get_col c ex else get_col c old
@@ -426,13 +426,16 @@ Definition rule_row (now : Z) (ru : rule) (ex old row : rec) : Prop :=
                                       | CUat => VInt now
                                       | _ => get_col c ex
                                       end
+  | RWhere k r => if r_age old <? k then rule_row now r ex old row else row = old
+  | RTarget _ r => rule_row now r ex old row
   end.
 
 Lemma oc_apply_rule now ru ex old : r_id ex = r_id old -> rule_row now ru ex old (oc_apply now ru ex old).
 Proof.
-  intros H. destruct ru as [|cols|]; cbn [rule_row oc_apply]; [reflexivity| |].
+  intros H. induction ru as [|cols| |k r IH|k r IH]; cbn [rule_row oc_apply]; [reflexivity| | | |exact IH].
   - intros c. apply copy_cols_get.
   - intros c. destruct old, ex as [i' n' a' e' ct' ut' d']; destruct d', c; cbn in *; reflexivity.
+  - destruct (r_age old <? k); [exact IH|reflexivity].
 Qed.
 
 Lemma upsert_rule t now ru v : wf t -> r_id v <> 0 ->
